@@ -408,6 +408,80 @@ pub fn dedicated_inputs() -> Vec<(&'static str, Mods, usize)> {
         )],
         4,
     ));
+    // generated vftable structs of blocks WITHOUT functions, and of types that also have a base,
+    // imported by name next to lower-precedence candidates of the same name
+    for (label, provider) in [
+        ("empty-block", ItemDefinition::new((Visibility::Public, "Foo"), TypeDefinition::new([TypeStatement::vftable([])]))),
+        ("sized-empty-block", ItemDefinition::new((Visibility::Public, "Foo"), TypeDefinition::new([TypeStatement::vftable([]).with_attributes([Attribute::size(2)])]))),
+        (
+            "block-and-base",
+            ItemDefinition::new(
+                (Visibility::Public, "Foo"),
+                TypeDefinition::new([vt("v"), TypeStatement::field((Visibility::Public, "base"), Type::ident("FooBase")).with_attributes([Attribute::base()])]),
+            ),
+        ),
+    ] {
+        let name: &'static str = match label {
+            "empty-block" => "use-of-generated-vftable-by-name/empty-block",
+            "sized-empty-block" => "use-of-generated-vftable-by-name/sized-empty-block",
+            _ => "use-of-generated-vftable-by-name/block-and-base",
+        };
+        out.push((
+            name,
+            vec![
+                (
+                    ItemPath::from("kd_pi"),
+                    Module::new().with_definitions([ItemDefinition::new((Visibility::Public, "FooBase"), TypeDefinition::new([TypeStatement::field((Visibility::Public, "x"), w())])), provider.clone()]),
+                ),
+                (ItemPath::from("kd_pj"), Module::new().with_definitions([ItemDefinition::new((Visibility::Public, "FooVftable"), TypeDefinition::new([TypeStatement::field((Visibility::Public, "x"), Type::ident("u32"))]))])),
+                (
+                    ItemPath::from("kd_pk"),
+                    Module::new()
+                        .with_uses([ItemPath::from("kd_pi::FooVftable"), ItemPath::from("kd_pj")])
+                        .with_definitions([
+                            ItemDefinition::new((Visibility::Public, "X"), TypeDefinition::new([TypeStatement::field((Visibility::Public, "p"), Type::ident("FooVftable").const_pointer())])),
+                        ])
+                        .with_impls([FunctionBlock::new("X", [Function::new((Visibility::Public, "g"), [Argument::ConstSelf, Argument::named("t", Type::ident("FooVftable").mut_pointer())]).with_attributes([Attribute::address(0x1000_0000)])])]),
+                ),
+                // own generated struct against the same name in an imported module
+                (
+                    ItemPath::from("kd_pl"),
+                    Module::new()
+                        .with_uses([ItemPath::from("kd_pj")])
+                        .with_definitions([
+                            ItemDefinition::new((Visibility::Public, "FooBase"), TypeDefinition::new([TypeStatement::field((Visibility::Public, "x"), w())])),
+                            provider,
+                            ItemDefinition::new((Visibility::Public, "Y"), TypeDefinition::new([TypeStatement::field((Visibility::Public, "p"), Type::ident("FooVftable").const_pointer())])),
+                        ]),
+                ),
+            ],
+            4,
+        ));
+    }
+    // repeated imports and an ambiguous name: the binding is decided by the written order of the
+    // `use` lines, however often one of them is repeated
+    out.push((
+        "repeated-imports",
+        vec![
+            (ItemPath::from("kd_rb"), Module::new().with_definitions([ItemDefinition::new((Visibility::Public, "Item"), TypeDefinition::new([TypeStatement::field((Visibility::Public, "a"), Type::ident("u64"))]))])),
+            (ItemPath::from("kd_rc"), Module::new().with_definitions([ItemDefinition::new((Visibility::Public, "Item"), TypeDefinition::new([TypeStatement::field((Visibility::Public, "b"), Type::ident("u32"))]))])),
+            (ItemPath::from("kd_rn"), Module::new().with_definitions([ItemDefinition::new((Visibility::Public, "Item"), TypeDefinition::new([TypeStatement::field((Visibility::Public, "c"), Type::ident("u16"))]))])),
+            (
+                ItemPath::from("kd_ru"),
+                Module::new()
+                    .with_uses([ItemPath::from("kd_rb::Item"), ItemPath::from("kd_rc::Item"), ItemPath::from("kd_rb::Item")])
+                    .with_definitions([ItemDefinition::new((Visibility::Public, "U"), TypeDefinition::new([TypeStatement::field((Visibility::Public, "i"), Type::ident("Item").const_pointer())]))])
+                    .with_extern_values([ExternValue::new(Visibility::Public, "g_item", Type::ident("Item").mut_pointer(), [Attribute::address(0x6000_0000)])]),
+            ),
+            (
+                ItemPath::from("kd_rv"),
+                Module::new()
+                    .with_uses([ItemPath::from("kd_rn"), ItemPath::from("kd_rb"), ItemPath::from("kd_rn"), ItemPath::from("kd_rb")])
+                    .with_definitions([ItemDefinition::new((Visibility::Public, "V"), TypeDefinition::new([TypeStatement::field((Visibility::Public, "i"), Type::ident("Item").const_pointer())]))]),
+            ),
+        ],
+        8,
+    ));
     // user type named like a generated vftable struct, duplicates: consistently rejected
     out.push((
         "user-type-named-like-vftable",
